@@ -12,49 +12,37 @@ from sa.util import cfg_of, key, where
 
 
 def import_rules(prog: Program, ctx: Ctx, rule: str) -> None:
-    ctx.rule(rule, "visit_import / visit_importfrom record every non-wildcard name in the import map before placing the alias; no alias is "
-                   "created that points at its own path; an import of a dotted module without `as` binds the top-level package")
-    for name in ("visit_import", "visit_importfrom"):
-        fn = prog.function(f"_griffe.agents.visitor.Visitor.{name}")
-        cfg = cfg_of(fn)
-        imp = [n for n in cfg.live_nodes() if n.kind == "stmt" and isinstance(n.stmt, ast.Assign) and isinstance(n.stmt.targets[0], ast.Subscript)
-               and unparse(n.stmt.targets[0].value).endswith(".imports")]
-        sm = [n for n in cfg.live_nodes() if n.kind == "stmt" and any(isinstance(c, ast.Call) and isinstance(c.func, ast.Attribute) and c.func.attr == "set_member" for c in walk_no_nested(n.stmt, include_self=True))]
-        ctx.ob(rule, key(fn, "imports-write"), len(imp) == 1 and unparse(imp[0].stmt.targets[0].slice) == "alias_name" and unparse(imp[0].stmt.value) == "alias_path",
-               "imports[alias_name] = alias_path", where(fn))
-        if imp and sm:
-            if name == "visit_import":
-                ok = all(cfg.dominated_by_node(s, lambda x: x in imp) for s in sm)
-            else:
-                # wildcard imports have no name to record: set_member is preceded by the write unless name == '*'
-                def star(a, _b, label):
-                    return a.kind == "test" and a.expr is not None and label in "TF" and any(unparse(at) == "name.name == '*'" and tr for at, tr in implied(a.expr, label == "T"))
+    """`import ...` decision table: Visitor.visit_import evaluated on abstract visitors, against CPython's binding rule.
 
-                ok = not (cfg.reach(cfg.entry, avoid=lambda x: x in imp, avoid_edge=star, normal_only=True) & set(sm))
-            ctx.ob(rule, key(fn, "imports-before-alias"), ok, "the import map is written before the alias is placed (for every non-wildcard name)", where(fn))
-    vif = prog.function("_griffe.agents.visitor.Visitor.visit_importfrom")
-    cfg = cfg_of(vif)
-    cons = [n for n in cfg.live_nodes() if n.kind == "stmt" and isinstance(n.stmt, ast.Assign) and isinstance(n.stmt.value, ast.Call) and dotted(n.stmt.value.func) == "Alias"]
-    for c in cons:
-        ok = cfg.dominated_by_fact(c, lambda a, t: t and isinstance(a, ast.Compare) and isinstance(a.ops[0], ast.NotEq) and unparse(a.left) == "alias_path"
-                                   and "self.current.path" in unparse(a.comparators[0]) and "alias_name" in unparse(a.comparators[0]))
-        ctx.ob(rule, key(vif, "no-self-alias"), ok, "an alias whose target path equals its own path is never created", where(vif, c.stmt))
-    ctx.expect_min(rule, len(cons), 1)
+    `import a.b.c` binds the top-level package `a`; `import a.b.c as x` binds `x` to `a.b.c`; the import map records the same target."""
+    from sa.absint import Native, Raised
+
+    ctx.rule(rule, "visit_import binds the top-level package for a dotted import without `as`, the full path under the given name with `as`, records the "
+                   "same target in the import map, and never creates an alias that points at its own path")
     vi = prog.function("_griffe.agents.visitor.Visitor.visit_import")
-    it2 = Interp(prog)
-    for mod_name, asname, want in (("a", None, ("a", "a")), ("a.b.c", None, ("a", "a")), ("a.b.c", "x", ("x", "a.b.c")), ("a", "y", ("y", "a"))):
-        # evaluate the two local definitions alias_path / alias_name
-        env = Env(vi.module)
-        from sa.absint import Obj
-
-        env.set("name", Obj(None, {"name": mod_name, "asname": asname}))
-        defs = {unparse(s.targets[0]): s.value for s in walk_no_nested(vi.node) if isinstance(s, ast.Assign) and unparse(s.targets[0]) in ("alias_path", "alias_name")}
-        if set(defs) != {"alias_path", "alias_name"}:
-            raise AnalysisError("C05-R6: alias_path / alias_name definitions not found in visit_import")
-        env.set("alias_path", it2.eval(defs["alias_path"], env))
-        env.set("alias_name", it2.eval(defs["alias_name"], env))
-        got = (env.vars["alias_name"], env.vars["alias_path"])
-        ctx.ob(rule, f"import|{mod_name} as {asname}", got == want, f"`import {mod_name}{' as ' + asname if asname else ''}` binds {got[0]} -> {got[1]}, expected {want[0]} -> {want[1]}", where(vi))
+    it = Interp(prog)
+    it.class_stubs["_griffe.models.Alias"] = lambda _i, name, target, **_k: Obj(None, {"name": name, "target_path": target}, label=f"alias {name}")
+    n_rows = 0
+    for scope_path in ("m", "a"):
+        for src, want in (("import a", [("a", "a")]), ("import a.b.c", [("a", "a")]), ("import a.b.c as x", [("x", "a.b.c")]), ("import a as y", [("y", "a")]),
+                          ("import a.b, d.e as f", [("a", "a"), ("f", "d.e")]), ("import m.sub", [("m", "m")])):
+            node = ast.parse(src).body[0]
+            recorded: list[tuple[str, str]] = []
+            imports: dict = {}
+            current = Obj(prog.cls("_griffe.models.Module"), {"name": scope_path, "path": scope_path, "imports": imports}, label=scope_path)
+            current.attrs["set_member"] = Native(lambda n, a, recorded=recorded: recorded.append((n, it.getattr(a, "target_path"))))
+            visitor = Obj(prog.cls("_griffe.agents.visitor.Visitor"), {"current": current, "type_guarded": False,
+                                                                       "extensions": Obj(None, {"call": Native(lambda *a, **k: None)})}, label="visitor")
+            try:
+                it.steps = 0
+                it.call(vi, visitor, node)
+                got: object = recorded
+            except Raised as r:
+                got = f"raises {r.exc}"
+            n_rows += 1
+            ok = got == want and all(imports.get(n) == t for n, t in want)
+            ctx.ob(rule, f"import|{scope_path}|{src}", ok, f"`{src}` in module {scope_path}: griffe binds {got} (import map {imports}); Python binds {want}", where(vi))
+    ctx.expect_min(rule, n_rows, 10)
 
 
 def importfrom_table(prog: Program, ctx: Ctx, rule: str) -> None:
@@ -85,7 +73,12 @@ def importfrom_table(prog: Program, ctx: Ctx, rule: str) -> None:
         mods[path] = Obj(prog.cls(f"{M}.Module"), {"name": parts[-1], "parent": mods.get(".".join(parts[:-1])), "path": path, "_filepath": fp}, label=path)
         mods[path].attrs["module"] = mods[path]
     n_rows = 0
-    for (mpath, init), in_class, level, module, asname, star in itertools.product(layouts.items(), (False, True), (0, 1, 2, 3), (None, "x"), (None, "t"), (False, True)):
+    for (mpath, init), in_class, level, module, asname, star in itertools.product(layouts.items(), (False, True), (0, 1, 2, 3), (None, "x", "<own module>"), (None, "t", "thing"),
+                                                                                     (False, True)):
+        if module == "<own module>":
+            if level != 0 or in_class:
+                continue
+            module = mpath  # `from pkg.mod import thing as thing` written in pkg.mod itself: the alias would point at its own path
         if level == 0 and module is None:
             continue
         if star and (asname or module is None):
